@@ -406,6 +406,8 @@ def gen_hl_case(rng, quirks=True):
 def run_case(case, exact):
     if case['kind'] == 'mc':
         return S.run_mc(case, exact)
+    if case['kind'] == 'wire':
+        return S.run_wire(case)
     return S.run_hl(case, exact)
 
 
@@ -774,10 +776,171 @@ def gen_float_mc_case(rng):
     return c
 
 
+# ----------------------------------------------------------------------------------------------- packet level (round 4)
+import struct  # noqa: E402
+
+
+def f32(x):
+    return struct.unpack('<f', struct.pack('<f', x))[0]
+
+
+def decode_packet(port, chan, data, version):
+    """independent decoder of the packets the two helpers may cause (CRTP port 7 generic commander, port 8 high-level
+    commander); anything else decodes to ('unknown', ...)"""
+    try:
+        if port == 7 and chan == 0:
+            t = data[0]
+            if t == 0 and len(data) == 1:
+                return ('stop',)
+            if t == 10 and len(data) == 17:
+                vx, vy, yaw, z = struct.unpack('<ffff', data[1:])
+                return ('hover', vx, vy, yaw, z)
+            if t == 5 and len(data) == 17:                      # legacy hover: the yaw rate travels negated
+                vx, vy, yaw, z = struct.unpack('<ffff', data[1:])
+                return ('hover', vx, vy, -yaw, z)
+        if port == 7 and chan == 1 and len(data) == 5 and data[0] == 0:
+            return ('notify', struct.unpack('<I', data[1:])[0])
+        if port == 8 and chan == 0:
+            c = data[0]
+            if c == 3 and len(data) == 2:
+                return ('hl_stop', data[1])
+            if c == 7 and len(data) == 15:
+                _, g, h, yaw, cur, d = struct.unpack('<BBff?f', data)
+                return ('hl_takeoff', h, d)
+            if c == 8 and len(data) == 15:
+                _, g, h, yaw, cur, d = struct.unpack('<BBff?f', data)
+                return ('hl_land', h, d)
+            if c == 12 and len(data) == 24:
+                _, g, rel, lin, x, y, z, yaw, d = struct.unpack('<BBBBfffff', data)
+                return ('hl_go_to', x, y, z, yaw, d, rel, lin)
+            if c == 4 and len(data) == 23:
+                _, g, rel, x, y, z, yaw, d = struct.unpack('<BBBfffff', data)
+                return ('hl_go_to', x, y, z, yaw, d, rel, 0)
+    except Exception:  # noqa
+        pass
+    return ('unknown', port, chan, data.hex())
+
+
+def expected_packet(name, args):
+    """what a call must put on the wire (a function of the call only)"""
+    if name == 'c.send_stop_setpoint' and not args:
+        return ('stop',)
+    if name == 'c.send_notify_setpoint_stop' and not args:
+        return ('notify', 0)
+    if name == 'c.send_hover_setpoint' and len(args) == 4:
+        return ('hover',) + tuple(f32(a) for a in args)
+    if name == 'h.stop' and not args:
+        return ('hl_stop', 0)
+    if name == 'h.takeoff' and len(args) == 2:
+        return ('hl_takeoff', f32(args[0]), f32(args[1]))
+    if name == 'h.land' and len(args) == 2:
+        return ('hl_land', f32(args[0]), f32(args[1]))
+    if name == 'h.go_to' and len(args) == 5:
+        return ('hl_go_to',) + tuple(f32(a) for a in args) + (0, 0)
+    return None
+
+
+def check_wire(case, r, consts):
+    """the ending / streaming clauses on the DECODED PACKET STREAM of a multi-flight history on one Crazyflie object,
+    and: every commander call puts exactly its own packet on the wire"""
+    fails = []
+    ver = r['version']
+    dec = [(w[0],) + decode_packet(w[1], w[2], w[3], ver) for w in r['wire']]
+    period = float(r['period'])
+    for c in r['calls']:
+        name, t, args, b, a = c
+        exp = expected_packet(name, args)
+        got = [d[1:] for d in dec[b:a]]
+        if exp is None:
+            fails.append(('wire_unexpected_call', 'a helper called %s%r' % (name, args), 'stop/notify/hover/takeoff/land/go_to', name))
+        elif got != [exp]:
+            fails.append(('wire_call_without_its_packet', '%s%r at t=%s must put exactly its own packet on the wire, whatever happened '
+                          'before on this Crazyflie object' % (name, args, t), [exp], got))
+    for i, fl in enumerate(r['flights']):
+        if not fl['entered']:
+            continue
+        window = [d[1] for d in dec[fl['w0']:fl['w1']]]
+        if fl['kind'] == 'mc':
+            gen = [n for n in window if n in ('stop', 'notify', 'hover')]
+            if gen[-2:] != ['stop', 'notify']:
+                fails.append(('wire_mc_exit_without_stop', 'flight %d of %d on this Crazyflie object (exception: %s): the last packets on the '
+                              'commander port must be STOP and the setpoint-priority release' % (i + 1, len(r['flights']), fl['exc']),
+                              ['stop', 'notify'], gen[-3:]))
+            marks = fl['marks']
+            for k, op in enumerate(case['flights'][i]['ops']):
+                if op[0] == 'land' and k + 1 < len(marks) and marks[k][1]:
+                    seg = [d[1] for d in dec[marks[k][0]:marks[k + 1][0]]]
+                    if seg[-2:] != ['stop', 'notify']:
+                        fails.append(('wire_mc_land_without_stop', 'flight %d: land() returned without STOP, release as its last packets' % (i + 1),
+                                      ['stop', 'notify'], seg[-3:]))
+            prev = None
+            for d in dec[fl['w0']:fl['w1']]:
+                if d[1] == 'hover':
+                    if prev is not None and d[0] - prev > period + TOL:
+                        fails.append(('wire_stream_gap', 'flight %d: hover packets further apart than the update period' % (i + 1), period, d[0] - prev))
+                    prev = d[0]
+                elif d[1] == 'stop':
+                    prev = None
+        else:
+            hl = [n for n in window if n.startswith('hl_')]
+            if not hl or hl[-1] != 'hl_stop':
+                fails.append(('wire_hl_exit_without_stop', 'flight %d of %d (exception: %s): the last high-level packet must be STOP'
+                              % (i + 1, len(r['flights']), fl['exc']), 'hl_stop', hl[-2:]))
+        if fl['alive_after'] or fl['flying_after']:
+            fails.append(('wire_mc_exit_without_stop' if fl['kind'] == 'mc' else 'wire_hl_exit_without_stop',
+                          'flight %d: still flying / thread alive after the context was left' % (i + 1), 0, [fl['alive_after'], fl['flying_after']]))
+    return fails
+
+
+def gen_wire_case(rng):
+    flights = []
+    for _ in range(rng.choice([2, 2, 3, 3, 4])):
+        if rng.random() < 0.65:
+            c = gen_mc_case(rng)
+            if c['default_height'] in ('0', '-0.2'):
+                c['default_height'] = None
+            fl = {'kind': 'mc', 'default_height': c['default_height'], 'ops': c['ops'][:5]}
+        else:
+            c = gen_hl_case(rng)
+            fl = {k: v for k, v in c.items() if k not in ('controller', 'wait')}
+            fl['ops'] = fl['ops'][:5]
+        if rng.random() < 0.3:
+            fl['reuse'] = fl['kind']          # the same helper object is entered again
+            for k in ('default_height', 'x', 'y', 'z', 'default_velocity', 'default_landing_height'):
+                fl.pop(k, None)
+            if fl['kind'] == 'mc':
+                fl['default_height'] = None
+        fl['epilogue'] = rng.choice(['0.5', '0.3', '1'])
+        flights.append(fl)
+    m = rng.random()
+    sched = [] if m < 0.4 else ([0] * 120 if m < 0.6 else [rng.randrange(2) for _ in range(120)])
+    return {'kind': 'wire', 'version': rng.choice([10, 10, 10, 9, 8, 7]), 'sched': sched, 'flights': flights}
+
+
+def fixed_wire_cases():
+    return [
+        {'kind': 'wire', 'version': 10, 'sched': [], 'flights': [
+            {'kind': 'mc', 'default_height': None, 'ops': [['forward', '0.2', None]]},
+            {'kind': 'mc', 'default_height': None, 'ops': [['up', '0.2', None], ['raise']]},
+            {'kind': 'mc', 'default_height': None, 'ops': []}]},
+        {'kind': 'wire', 'version': 10, 'sched': [0] * 60, 'flights': [
+            {'kind': 'mc', 'default_height': None, 'reuse': 'mc',
+             'ops': [['land', None], ['take_off', None, None], ['start_forward', None], ['wait', '0.3'], ['land', None], ['take_off', '0.4', None]]},
+            {'kind': 'mc', 'default_height': None, 'reuse': 'mc', 'ops': [['down', '0.3', None], ['forward', '0', None]]}]},
+        {'kind': 'wire', 'version': 7, 'sched': [], 'flights': [
+            {'kind': 'hl', 'ops': [['go_to', '1', '0', '1', None], ['land', None, None], ['take_off', None, None]]},
+            {'kind': 'mc', 'default_height': None, 'ops': [['turn_left', '90', None]]},
+            {'kind': 'hl', 'ops': [['down', '2', None]]},
+            {'kind': 'mc', 'default_height': None, 'ops': [['raise']]}]},
+    ]
+
+
 def _check(case, r, consts):
     """the property checks on one observation; a crash of the checker itself is reported as a failure of this very
     case (fail-closed, with the input) instead of taking the whole oracle down"""
     try:
+        if case['kind'] == 'wire':
+            return check_wire(case, r, consts)
         return check_mc(case, r, consts) if case['kind'] == 'mc' else check_hl(case, r, consts)
     except Exception as e:  # noqa
         import traceback
@@ -795,6 +958,9 @@ def oracle(ctx, deep=False):
         cases.append(gen_float_mc_case(ctx.rng))
     for _ in range(ctx.scale(400, 5000) * k):
         cases.append(gen_hl_case(ctx.rng))
+    cases += fixed_wire_cases()
+    for _ in range(ctx.scale(150, 2000) * k):
+        cases.append(gen_wire_case(ctx.rng))
     fails = []
     seen = set()
     n = 0
@@ -814,10 +980,20 @@ def oracle(ctx, deep=False):
             if cls in seen:
                 continue
             seen.add(cls)
-            fails.append({'class': cls, 'case': shrink(case, cls, consts), 'expected': expd, 'observed': obs, 'detail': detail})
+            small = shrink(case, cls, consts)
+            try:        # describe the failure of the shrunk input, not of the original one
+                for c2, d2, e2, o2 in _check(small, run_case(small, False), consts):
+                    if c2 == cls:
+                        detail, expd, obs = d2, e2, o2
+                        break
+            except Exception:  # noqa
+                pass
+            fails.append({'class': cls, 'case': small, 'expected': expd, 'observed': obs, 'detail': detail})
     return {'evaluations': n, 'failures': fails,
             'rule': 'float mode: final commands, no streaming afterwards, stream period, height recurrence, velocity x '
-                    'duration = displacement, reported position = previous + displacement, go_to duration = distance / velocity'}
+                    'duration = displacement, reported position = previous + displacement, go_to duration = distance / velocity; packet level: multi-flight '
+                    'histories on one Crazyflie-like object with the real Commander/HighLevelCommander over a recording send_packet, '
+                    'decoded packet stream ends every flight with STOP + release, one packet per call'}
 
 
 def _classes(case, consts):
@@ -825,12 +1001,16 @@ def _classes(case, consts):
         r = run_case(case, False)
     except S.SimHang:
         return {'hang_in_virtual_time'}
+    except Exception:  # noqa
+        return {'driver_crashed'}
     return {f[0] for f in _check(case, r, consts)}
 
 
 def shrink(case, cls, consts):
     """greedy minimisation: drop primitives, then the schedule, while the same class still fails"""
     cur = json.loads(json.dumps(case))
+    if cur['kind'] == 'wire':
+        return shrink_wire(cur, cls, consts)
     changed = True
     while changed:
         changed = False
@@ -850,6 +1030,35 @@ def shrink(case, cls, consts):
             c2[key] = None
             if cls in _classes(c2, consts):
                 cur = c2
+    return cur
+
+
+def shrink_wire(cur, cls, consts):
+    """drop whole flights, then primitives inside the flights, then the schedule, while the same class still fails"""
+    changed = True
+    while changed:
+        changed = False
+        for i in range(len(cur['flights'])):
+            if len(cur['flights']) > 1:
+                c2 = dict(cur, flights=cur['flights'][:i] + cur['flights'][i + 1:])
+                if cls in _classes(c2, consts):
+                    cur, changed = c2, True
+                    break
+        if changed:
+            continue
+        for i, fl in enumerate(cur['flights']):
+            for j in range(len(fl['ops'])):
+                f2 = dict(fl, ops=fl['ops'][:j] + fl['ops'][j + 1:])
+                c2 = dict(cur, flights=cur['flights'][:i] + [f2] + cur['flights'][i + 1:])
+                if cls in _classes(c2, consts):
+                    cur, changed = c2, True
+                    break
+            if changed:
+                break
+    if cur.get('sched'):
+        c2 = dict(cur, sched=[])
+        if cls in _classes(c2, consts):
+            cur = c2
     return cur
 
 
